@@ -23,7 +23,7 @@ Definition TI (t0 T : Z) (c : client) : Prop := 0 < T /\ Bound t0 T c /\ Live c.
 
 (* phase / clock / timeout projections of the building blocks *)
 Lemma ptn_finish res c : c_phase (finish res c) = PhDone res /\ c_now (finish res c) = c_now c /\ c_T (finish res c) = c_T c.
-Proof. unfold finish. destruct (_ && _); repeat split. Qed.
+Proof. unfold finish. repeat match goal with |- context[if ?b then _ else _] => destruct b end; repeat split. Qed.
 Lemma ptn_run_callbacks c :
   c_phase (run_callbacks c) = c_phase c /\ c_now (run_callbacks c) = c_now c /\ c_T (run_callbacks c) = c_T c /\
   c_fut (run_callbacks c) = c_fut c /\ c_lost (run_callbacks c) = c_lost c.
